@@ -652,13 +652,51 @@ func (ir *idxRun) onQueryChange(qc store.QueryChange) {
 		delete(ir.idxModel, qc.ID())
 	}
 	ir.h.mu.Unlock()
-	// after a RebuildIndexes the index may be ahead of a queued index update:
-	// it reflects the value stored now, not the one of this mutation (asked
-	// after each probe query: the rebuild may run while the probe is parked)
-	ahead := func() bool {
+	// C14 asks for the callback to come after the index reflects the
+	// mutation, not for the index to reflect nothing else: it may be ahead of
+	// the callback - after a RebuildIndexes, which indexes the value stored
+	// now, or in a query store that commits several index updates together
+	// and then calls back for each. What the index may hold for the id is the
+	// state after this mutation or after any later one committed so far
+	// (asked after each probe query: mutators run while the probe is parked).
+	// This is the k-th callback for the id, so its mutation is the k-th one
+	// of the id that changed an index key.
+	ir.h.mu.Lock()
+	nth := 0
+	for _, r := range ir.qcs[:len(ir.qcs)-1] {
+		if r.ID == qc.ID() {
+			nth++
+		}
+	}
+	ir.h.mu.Unlock()
+	laterStates := func() []*idxRec {
 		ir.h.mu.Lock()
 		defer ir.h.mu.Unlock()
-		return ir.rebuilt && !sameRec(ir.model[qc.ID()], a)
+		var out []*idxRec
+		k, found := 0, false
+		for _, m := range ir.muts {
+			if m.ID != qc.ID() {
+				continue
+			}
+			if found {
+				out = append(out, m.After)
+			} else if m.Changed {
+				if k == nth {
+					found = true
+				}
+				k++
+			}
+		}
+		return out
+	}
+	// aheadWith reports whether some later state of the id satisfies want
+	aheadWith := func(idx string, want func(key []byte) bool) bool {
+		for _, st := range laterStates() {
+			if want(idxKeyOf(idx, st)) {
+				return true
+			}
+		}
+		return false
 	}
 	// the index already reflects the mutation
 	for _, idx := range []string{"k", "n"} {
@@ -671,7 +709,7 @@ func (ir *idxRun) onQueryChange(qc store.QueryChange) {
 		if nk != nil {
 			r, err := ir.qs.Query(IdxQuery{Index: idx, Prefix: string(nk), Limit: -1}.values())
 			ids, _ := r.([]string)
-			if (err != nil || !contains(ids, qc.ID())) && !ahead() {
+			if (err != nil || !contains(ids, qc.ID())) && !aheadWith(idx, func(k []byte) bool { return k == nil || !bytes.HasPrefix(k, nk) }) {
 				ir.h.Violate("C14", "callback-before-index", "new-key", fmt.Sprintf("inside the query-change callback for id %q, a query for its new %s key %q returns %q (err %v)", qc.ID(), idx, nk, ids, err))
 			}
 		}
@@ -679,7 +717,7 @@ func (ir *idxRun) onQueryChange(qc store.QueryChange) {
 			r, err := ir.qs.Query(IdxQuery{Index: idx, Prefix: string(ok), Limit: -1}.values())
 			ids, _ := r.([]string)
 			// the id may still match through its new key only if that key has the old one as prefix
-			if err == nil && contains(ids, qc.ID()) && !ahead() {
+			if err == nil && contains(ids, qc.ID()) && !aheadWith(idx, func(k []byte) bool { return k != nil && bytes.HasPrefix(k, ok) }) {
 				ir.h.Violate("C14", "callback-before-index", "old-key", fmt.Sprintf("inside the query-change callback for id %q, a query for its old %s key %q still returns it: %q", qc.ID(), idx, ok, ids))
 			}
 		}
